@@ -444,3 +444,33 @@ proof_fmt!(c03_slice_route_fixed, 12, {
     forget(d2);
     forget(sc);
 });
+
+// names with multi-byte UTF-8 scalars: exact match, no prefix / byte-length confusion
+macro_rules! c01_name_unicode {
+    ($name:ident, $key:expr, $exp:expr) => {
+        proof!($name, 10, {
+            let mut sc = Scratch::new();
+            sc.set(0, "\u{e9}", Mini::Int(kani::any()));
+            sc.set(1, "\u{65e5}\u{672c}", Mini::Null);
+            sc.set(2, "\u{1f600}", Mini::Bool(kani::any()));
+            let doc = sc.obj(3);
+            let d = process_key(root_ptr(&doc), $key);
+            let exp: Option<usize> = $exp;
+            match &d {
+                Data::Ref(p) => {
+                    assert!(exp.is_some(), "name selector selected a member although no member has that name");
+                    assert!(core::ptr::eq(p.inner, &sc.o.vals[exp.unwrap_or(0)]), "name selector selected the wrong member");
+                }
+                Data::Nothing => assert!(exp.is_none(), "name selector selected nothing although a member has that name"),
+                _ => assert!(false, "name selector must yield zero or one node"),
+            }
+            kani::cover!(true, "end reached");
+            forget(d);
+            forget(sc);
+        });
+    };
+}
+c01_name_unicode!(c01_name_u2, "\u{e9}", Some(0));
+c01_name_unicode!(c01_name_u3, "\u{65e5}\u{672c}", Some(1));
+c01_name_unicode!(c01_name_u4, "\u{1f600}", Some(2));
+c01_name_unicode!(c01_name_u3_prefix, "\u{65e5}", None);
